@@ -35,3 +35,27 @@ Print Assumptions C03_after_a_store_every_lookup_hits.
 Theorem C03_plain_steps_are_cache_steps : forall pc f s s', pstep f s s' -> cstep None pc f s s'.
 Proof. exact pstep_is_cstep. Qed.
 Print Assumptions C03_plain_steps_are_cache_steps.
+
+(* the async engine, seen by a lock-free reader BETWEEN the map operations of a store (AsyncMicro):
+   the key being stored keeps its old entry until the one insert replaces it, every other key that
+   survives the store is visible unchanged all the time, a key is absent at some moment only if the
+   store really evicts it — so a caller never runs the body for a key that is stored and stays
+   stored — and the map operations end in the state of the sequential model *)
+From CL Require Import AsyncMicro PfInvA PfAsyncMicro.
+Theorem C03_async_store_seen_by_lock_free_readers :
+  forall c now wm k v sz m q ch m' q' R,
+    Struct m q -> insert_async c now wm k v sz m q ch = (m', q') ->
+    incl R (victims_of k m m') ->
+    lookup k (visible_during m R) = lookup k m /\
+    (forall x, x <> k -> mem x m' = true ->
+               lookup x (visible_during m R) = lookup x m /\ lookup x m' = lookup x m) /\
+    (forall x, mem x m = true -> lookup x (visible_during m R) = None -> x <> k /\ mem x m' = false) /\
+    (forall x, lookup x (after_last_op c now k v sz m m') = lookup x m').
+Proof.
+  intros c now wm k v sz m q ch m' q' R HS H Hincl. split; [|split; [|split]].
+  - eapply replaced_key_never_absent; exact Hincl.
+  - intros x Hne Hm. eapply surviving_key_never_absent; eassumption.
+  - intros x Hm Hn. eapply absent_only_if_evicted; eassumption.
+  - intro x. eapply map_operations_reach_the_model_state; eassumption.
+Qed.
+Print Assumptions C03_async_store_seen_by_lock_free_readers.
